@@ -30,6 +30,10 @@ def gen_tamper(rng, chain, recs):
     deep = [f for f in files if "/build/" in f or f.startswith("vendor/") or "vendor/" in f]
     if deep and rng.random() < 0.5:
         files = deep        # places where a recorder that prunes or strips too much would look away
+    if "dir:proj" in files and rng.random() < 0.7:
+        # files that are covered only through the digest of the directory artifact; one of them only through the
+        # linked directory inside it
+        files = ["plugins_v1/hook.py", "plugins_v1/hook.py", "proj/main.py", "proj/conf/a.ini"]
     kind = rng.choice(["edit", "add", "delete", "rename", "rewrite_same", "uncovered", "delete_all", "line_endings"])
     if kind in ("edit", "delete", "rename", "rewrite_same", "delete_all", "line_endings") and not files:
         kind = "add"
@@ -101,11 +105,27 @@ def run(ctx):
     dist = {"honest_accept": 0, "tamper_effective": 0, "tamper_ineffective": 0, "kinds": {}}
     samples = []
     for i in range(n):
-        chain = ch.gen_chain(ctx.rng, {"nsteps": ctx.rng.choice([2, 2, 3, 4]), "p_two_phase": 0.15})
+        copts = {"nsteps": ctx.rng.choice([2, 2, 3, 4]), "p_two_phase": 0.15}
+        if i % 9 == 4:
+            copts["force_variant"] = "dir"           # a directory artifact with a linked directory inside, in every run
+        elif i % 23 == 7:
+            copts["force_variant"] = "clash"
+        chain = ch.gen_chain(ctx.rng, copts)
         recs, project, linkdir = ch.record_chain(ctx, chain)
         if not all(r["file_exists"] and not r["exc"] for r in recs):
             continue
         ch.resolve_records(rec_model, recs)      # what the specification says is covered at each boundary
+        refused = [(r["name"], k, r[k]["err"]) for r in recs for k in ("mat_before", "prod_after")
+                   if isinstance(r.get(k), dict) and "err" in r[k]]
+        if refused:
+            # the recorder wrote links although the specification of recording refuses this tree (two files under one
+            # name ...): the files left out of the links are outside every later comparison
+            viol += 1
+            if viol <= 3:
+                ctx.violation("a step was recorded although the specification of recording refuses its artifacts (%s): "
+                              "files dropped from the link escape the chain" % ", ".join("%s/%s: %s" % x for x in refused[:3]),
+                              {"chain": chain, "refused": refused})
+            continue
         family = ctx.rng.choice(["R", "B"])
         layout = ch.derive_layout(ctx.rng, chain, recs, family)
         layout_md = ch.sign_layout(layout, owner, dsse=ctx.rng.random() < 0.3)
@@ -190,6 +210,19 @@ def run(ctx):
 
 def replay(ctx, obj):
     r = obj["replay"]
+    if "refused" in r:
+        recs, project, linkdir = ch.record_chain(ctx, r["chain"])
+        ok = all(x["file_exists"] and not x["exc"] for x in recs)
+        if ok:
+            ch.resolve_records(core.Model(), recs)
+            refused = [(x["name"], k, x[k]["err"]) for x in recs for k in ("mat_before", "prod_after")
+                       if isinstance(x.get(k), dict) and "err" in x[k]]
+            if refused:
+                print("recorded although refused by the specification:", refused[:3])
+                print("VIOLATION property=C04 replay=%s" % obj.get("rerun", "").split()[-1])
+                return 1
+        print("agree (recording refused or specified)")
+        return 0
     chain, family, tam = r["chain"], r["family"], r["tamper"]
     owner = hk.sslib_key("ed25519", 5)
     recs, project, linkdir = ch.record_chain(ctx, chain)
